@@ -76,6 +76,16 @@ CHECKS = {
             "Generated object histories with full-precision real parameters and extreme contents, plus both default parameter sets and default-size key sets on every back-end.",
             "Objects are constructed through public constructors/fields; cloud and secret key sets use N=1024 (the importer rebuilds the FFT key).",
             "DESIGN.md §3 C05"),
+    "C17": ("exploration", "E1",
+            "rapidcheck over key seeds, small custom and default parameter sets, transports and export histories; oracle = size formula (text lengths via the API), strict-prefix relation with the secret export, rolling-hash substring search for key material in raw/window/packed encodings, zero-mask row rule, exact consumption and identical re-export on import",
+            "Generated key sets and export histories on real keys, including both default sets (110 MB exports) on both transports.",
+            "Substring search covers the encodings listed in the rule; size formula recomputed from the returned parameters.",
+            "DESIGN.md §3 C17"),
+    "C18": ("fault_enumeration", "E3+E2",
+            "fork-per-case fault enumeration: every truncation offset, every A-into-B substitution, every single-byte title/tag corruption, both transports, sanitizer build; oracle = exit status / terminating signal / stream state / equality with the intact import",
+            "Exhaustive over byte offsets and tag/title bytes for small-parameter instances of all 14 types (thorough: also every offset of the 33 KB key sets and five more generated instances).",
+            "The accepted behaviour is process termination, so each fault runs in its own child; NULL-dereference on a missing text section is the documented outcome and is accepted (address checked).",
+            "DESIGN.md §3 C18"),
 }
 
 ALL = ["C%02d" % k for k in range(1, 21)]
